@@ -213,6 +213,14 @@ def run(case, ctx):
             check(int(o) == e, "numpy-vs-scalar",
                   "array converter gave %r for %r, scalar/exact %r" %
                   (int(o), v, e), value=v, **fmt)
+        # the result is the caller's array: what the caller then writes into
+        # it touches neither the input nor any later result
+        if out.size and out.flags.writeable:
+            out[...] = 0x55 if nb > 7 else 1
+            ctx.hit("result_array_overwritten")
+            check(np.array_equal(arr, snapshot), "numpy-input-mutated",
+                  "overwriting the RESULT array changed the input array",
+                  **fmt)
         # the same converter object again: other order, strides, element
         # types - nothing may be remembered from the first array
         flat = arr.reshape(-1)
